@@ -116,6 +116,7 @@ LEAVES = [
     "&amp;", "&#35;", "\\*x", "<http://a.b>", "<a@b.c>", "~~s~~", "a_b_c", "\"q\" 'r'", "(c) ... --", "http://x.y",
     "  a", "   a", " - a", "  - b", "   - c", "    - d", "  1. x", "   > z", "\\", "`", "* * a", "- # h", "> ```", "- ```",
     ">     c", "- \x0c", "1. \u3000", "- \xa0", "> \x0b", "\x0c", "\u2028", "-\x0c\n- b", "². a", "①) a", "٣. a", "1２. a", "-\ta", ">\ta", "1.\ta", "[a]: /u \"t", "[a]: <u", "[", "]", "![", "](", "\"", "'", "a\u00a0", "\u00a0a", "\x0bx",
+    "######", "#######", "########", "############", "####### ", "#######\t", "   #######", "## ##", "#######\\", "1234567890.", "123456789)", "10. a", "99) b",
 ]
 CONTAINER_PREFIXES = [
     "> ", ">", " > ", "- ", "  ", "    ", "   ", "1. ", "* ", "+ ", "> - ", "- > ", "> > ", ">> ", "   - ", "10) ",
